@@ -215,10 +215,30 @@ class _randobj:
     
                                     model.add_field(fo._int_field_info.model)
                     
-                                # Now, elaborate the constraints
+                        # A constraint body may reference a dynamic constraint 
+                        # that is elaborated after it: the blocks of all dynamic 
+                        # constraints exist, and are known to this instance, 
+                        # before any body is elaborated
+                        dyn_blocks = {}
                         for f in dir(self):
                             if not f.startswith("__") and not f.startswith("_int_"):
                                 fo = getattr(self, f)
+                                if isinstance(fo, dynamic_constraint_t):
+                                    block = ConstraintBlockModel(f)
+                                    block.srcinfo = fo.srcinfo
+                                    block.is_dynamic = True
+                                    model.add_dynamic_constraint(block)
+                                    dyn_blocks[f] = block
+
+                                # Now, elaborate the constraints
+                        for f in dir(self):
+                            if not f.startswith("__") and not f.startswith("_int_"):
+                                if f in dyn_blocks.keys():
+                                    # (the instance now answers with a reference
+                                    # to its own block)
+                                    fo = object.__getattribute__(self, f)
+                                else:
+                                    fo = getattr(self, f)
                                 if isinstance(fo, constraint_t):
                                     clear_exprs()
                                     block = ConstraintBlockModel(f)
@@ -236,9 +256,7 @@ class _randobj:
                                     clear_exprs()
                                 elif isinstance(fo, dynamic_constraint_t):
                                     clear_exprs()
-                                    block = ConstraintBlockModel(f)
-                                    block.srcinfo = fo.srcinfo
-                                    push_constraint_scope(block)
+                                    push_constraint_scope(dyn_blocks[f])
                                     try:
                                         fo.c(self)
                                     except Exception as e:
@@ -248,7 +266,6 @@ class _randobj:
                                         raise e
                                     fo.set_model(pop_constraint_scope())
                                     fo.model.is_dynamic = True
-                                    model.add_dynamic_constraint(fo.model)
                                     clear_exprs()
     
                 self._int_field_info.model.name = name
